@@ -28,7 +28,7 @@ regcomp regexec regfree regerror exit abort _exit basename __xpg_basename getenv
 fflush fwrite fread fopen fclose strtol strtoul atoi strchr strrchr strstr memchr qsort abs labs
 __errno_location __assert_fail access stat fstat stat64 fstat64 mkdir rmdir opendir readdir closedir
 program_invocation_name program_invocation_short_name waitpid fork execl execv execvp dup dup2 pipe
-mkdtemp chdir getcwd sscanf fscanf strcat strncat memmem fdopen fileno remove rename
+mkdtemp chdir getcwd sscanf fscanf strcat strncat memmem fdopen fileno remove rename fcntl fcntl64
 """.split())
 
 
@@ -133,9 +133,9 @@ def build_variant(name, verbose=False):
     vdir = os.path.join(BUILD, name)
     objdir = os.path.join(BUILD, "obj")
     os.makedirs(vdir, exist_ok=True); os.makedirs(objdir, exist_ok=True)
-    incdir = os.path.join(vdir, "include")
-    os.makedirs(incdir, exist_ok=True)
     zck_h = open(os.path.join(REPO, "include/zck.h.in")).read().replace("@version@", repo_version())
+    incdir = os.path.join(vdir, "include-" + hashlib.sha256(zck_h.encode()).hexdigest()[:12])
+    os.makedirs(incdir, exist_ok=True)
     hp = os.path.join(incdir, "zck.h")
     if not os.path.exists(hp) or open(hp).read() != zck_h:
         open(hp, "w").write(zck_h)
@@ -186,8 +186,10 @@ def build_variant(name, verbose=False):
             link.append(ro)
         else:
             link.append(o)
-    exe = os.path.join(vdir, "drv")
     lkey = hashlib.sha256((" ".join(sorted(link)) + " ".join(san)).encode()).hexdigest()
+    # the binary's name carries the key of what it was linked from, so runs against different source trees (selftest,
+    # seeded-change evaluation) can never pick up each other's driver
+    exe = os.path.join(vdir, "drv-" + lkey[:16])
     stamp = exe + ".stamp"
     if not (os.path.exists(exe) and os.path.exists(stamp) and open(stamp).read() == lkey):
         wrap = ["-Wl,--wrap=" + w for w in WRAPS]
@@ -198,6 +200,16 @@ def build_variant(name, verbose=False):
             raise RuntimeError("link failed (%s):\n%s" % (name, r.stderr[-4000:]))
         os.replace(exe + ".tmp", exe)
         open(stamp, "w").write(lkey)
+        # keep the eight most recent binaries of this variant
+        olds = sorted(glob.glob(os.path.join(vdir, "drv-*[0-9a-f]")), key=os.path.getmtime, reverse=True)
+        for o in olds[8:]:
+            for f in (o, o + ".stamp"):
+                try:
+                    os.unlink(f)
+                except OSError:
+                    pass
+    else:
+        os.utime(exe, None)
     return exe
 
 
@@ -208,8 +220,8 @@ def unowned_symbols(variant="asan"):
     res = set()
     # recompute object names cheaply by re-running compile_one (cache hit)
     vdir = os.path.join(BUILD, variant)
-    incdir = os.path.join(vdir, "include")
-    zck_h = open(os.path.join(incdir, "zck.h")).read()
+    zck_h = open(os.path.join(REPO, "include/zck.h.in")).read().replace("@version@", repo_version())
+    incdir = os.path.join(vdir, "include-" + hashlib.sha256(zck_h.encode()).hexdigest()[:12])
     hdig = header_digest() + hashlib.sha256(zck_h.encode()).hexdigest()
     defs = meson_defines(openssl) + ["-D" + GUARD, "-std=gnu11", "-w"]
     inc = ["-I", incdir, "-I", os.path.join(REPO, "src/lib"), "-I", os.path.join(REPO, "src"),
